@@ -13,6 +13,10 @@ RULE = ('(1) S-VM hash steps: the NodeHash.value tree of random engine graphs is
         'must be the one a sequential execution computes. distinct_nontrivial counts hash groups holding >= 2 evaluations')
 
 
+def _explicit_shard(args):
+    return suite_hash.run_explicit_functions(*args)
+
+
 def _shard(args):
     seed, n = args
     out = suite_vm.run_suite(seed, n, max_nodes=14)
@@ -72,6 +76,11 @@ def run(tier, seed, res, lean):
     for p in hash_races[:3]:
         res.violations.append(Violation('c05-concurrent-hash', p['msg'][:400], {'suite': 'S-SCHED', **p}))
     res.coverage['concurrent_hash_schedules'] = sum(o[0]['schedules'] for o in sched)
+    # explicit Function(...) bindings with Silent keywords written in any order (pipeline level)
+    ef = pmap(_explicit_shard, [(seed * 613 + i + 1, 12 if tier == 'quick' else 100) for i in range(shards)])
+    for p in [p for o in ef for p in o[1] if p.get('kind') != 'silent-changes-hash'][:3]:
+        res.violations.append(Violation('c05-explicit-function', p['msg'][:400], {'suite': 'S-HASH/explicit', **p}))
+    res.coverage['explicit_function_cases'] = sum(o[0] for o in ef)
     fam = {}
     for o in outs:
         for k, v in o[6].items():
